@@ -252,6 +252,69 @@ pub fn dist_typo<const N: usize, const NQ: usize, const KIND: u8>() {
     std::mem::forget(dl);
 }
 
+/// C14 at the kernel level, title side: two adjacent title words a (LA letters) and b (LB letters)
+/// separated by ONE separator character; the query runs them together (stem = length, finished).
+/// Real `WordView::join`, `length_check`, `jaccard_check`, distance, and `WordMatch::split`.
+pub fn join_title<const N: usize, const LA: usize, const LB: usize, const NQ: usize>() {
+    use lucid_suggest_core::verif_hooks::DamerauLevenshtein;
+    use lucid_suggest_core::lang::CharClass;
+    let mut t = any_txt_stems::<N, 2>([(0, LA), (LA + 1, N)], [LA, LB], true);
+    t.classes[LA] = CharClass::NotAlpha;                       // what set_char_classes gives a separator
+    let mut q = any_txt_stems::<NQ, 1>([(0, NQ)], [NQ], true);
+    let mut i = 0;
+    while i < LA { q.chars[i] = t.chars[i]; q.classes[i] = t.classes[i]; i += 1; }
+    let mut i = 0;
+    while i < LB { q.chars[LA + i] = t.chars[LA + 1 + i]; q.classes[LA + i] = t.classes[LA + 1 + i]; i += 1; }
+    let (tt, qt) = (t.text(), q.text());
+    let (v1, v2, qv) = (tt.view(0), tt.view(1), qt.view(0));
+    let joined = v1.join(&v2);
+    assert!(joined.len() == N && joined.stem == N && joined.fin, "C14: joined view has the wrong extent / stem / fin");
+    assert!(vh::length_check(&joined, &qv), "C14: length pre-filter rejects the run-together query");
+    assert!(vh::jaccard_check(&joined, &qv), "C14: Jaccard pre-filter rejects the run-together query");
+    let dl = DamerauLevenshtein::verif_with_capacity(N);
+    let d = dl.distance(&qv, &joined);
+    assert!(d <= 0.5, "C14: dropping one separator costs more than 0.5");
+    assert!(d / (N as f64) <= 0.21, "C14: run-together spelling exceeds the relative typo threshold");
+    let (rm, _qm) = WordMatch::new_pair(&joined, &qv, N, NQ, d);
+    match rm.split(&v1, &v2) {
+        None => assert!(false, "C14: the joined match is not split over the two title words"),
+        Some((p1, p2)) => assert!(p1.subslice == (0, LA) && p2.subslice == (0, LB) && p1.offset == 0 && p2.offset == 1, "C14/C09: split parts do not cover the two words"),
+    }
+    crate::witness!(d > 0.0, "a non-zero distance is reachable");
+    std::mem::forget(dl);
+}
+
+/// C14 at the kernel level, query side: a title word of N letters, the query spells it as two
+/// words split at S with one separator in between.
+pub fn join_query<const N: usize, const S: usize, const NQ: usize>() {
+    use lucid_suggest_core::verif_hooks::DamerauLevenshtein;
+    use lucid_suggest_core::lang::CharClass;
+    let r = any_txt_stems::<N, 1>([(0, N)], [N], true);
+    let mut q = any_txt_stems::<NQ, 2>([(0, S), (S + 1, NQ)], [S, N - S], true);
+    q.classes[S] = CharClass::NotAlpha;
+    let mut i = 0;
+    while i < S { q.chars[i] = r.chars[i]; q.classes[i] = r.classes[i]; i += 1; }
+    let mut i = S;
+    while i < N { q.chars[i + 1] = r.chars[i]; q.classes[i + 1] = r.classes[i]; i += 1; }
+    let (rt, qt) = (r.text(), q.text());
+    let (rv, q1, q2) = (rt.view(0), qt.view(0), qt.view(1));
+    let joined = q1.join(&q2);
+    assert!(joined.len() == NQ && joined.stem == NQ, "C14: joined query view has the wrong extent / stem");
+    assert!(vh::length_check(&rv, &joined), "C14: length pre-filter rejects the split spelling");
+    assert!(vh::jaccard_check(&rv, &joined), "C14: Jaccard pre-filter rejects the split spelling");
+    let dl = DamerauLevenshtein::verif_with_capacity(NQ);
+    let d = dl.distance(&joined, &rv);
+    assert!(d <= 0.5, "C14: one extra separator costs more than 0.5");
+    assert!(d / (NQ as f64) <= 0.21, "C14: split spelling exceeds the relative typo threshold");
+    let (_rm, qm) = WordMatch::new_pair(&rv, &joined, N, NQ, d);
+    match qm.split(&q1, &q2) {
+        None => assert!(false, "C14: the joined query match is not split over the two query words"),
+        Some((p1, p2)) => assert!(p1.subslice == (0, S) && p2.subslice == (0, N - S), "C14: split parts do not cover the two query words"),
+    }
+    crate::witness!(d > 0.0, "a non-zero distance is reachable");
+    std::mem::forget(dl);
+}
+
 fn same_pair(a: &Option<(WordMatch, WordMatch)>, b: &Option<(WordMatch, WordMatch)>) -> bool {
     match (a, b) {
         (None, None) => true,
@@ -330,6 +393,11 @@ cases! {
     wm_gtypo_6_sub = gates_typo::<6, 6, 0>(); wm_gtypo_6_ins = gates_typo::<6, 7, 1>(); wm_gtypo_6_del = gates_typo::<6, 5, 2>(); wm_gtypo_6_tr = gates_typo::<6, 6, 3>();
     wm_dtypo_5_sub = dist_typo::<5, 5, 0>(); wm_dtypo_5_ins = dist_typo::<5, 6, 1>(); wm_dtypo_5_del = dist_typo::<5, 4, 2>(); wm_dtypo_5_tr = dist_typo::<5, 5, 3>();
     wm_dtypo_6_sub = dist_typo::<6, 6, 0>(); wm_dtypo_6_del = dist_typo::<6, 5, 2>(); wm_dtypo_6_tr = dist_typo::<6, 6, 3>();
+    // join_title<N, LA, LB, NQ> / join_query<N, S, NQ>
+    wm_joint_1_2 = join_title::<4, 1, 2, 3>(); wm_joint_2_1 = join_title::<4, 2, 1, 3>(); wm_joint_2_2 = join_title::<5, 2, 2, 4>();
+    wm_joint_1_3 = join_title::<5, 1, 3, 4>(); wm_joint_2_3 = join_title::<6, 2, 3, 5>(); wm_joint_3_2 = join_title::<6, 3, 2, 5>();
+    wm_joinq_3_1 = join_query::<3, 1, 4>(); wm_joinq_3_2 = join_query::<3, 2, 4>(); wm_joinq_4_2 = join_query::<4, 2, 5>();
+    wm_joinq_4_1 = join_query::<4, 1, 5>(); wm_joinq_5_2 = join_query::<5, 2, 6>(); wm_joinq_5_3 = join_query::<5, 3, 6>();
     // equal<N, SR, SQ>
     wm_eq_1 = equal::<1, 1, 1>(); wm_eq_2 = equal::<2, 2, 2>(); wm_eq_2_s1 = equal::<2, 1, 1>(); wm_eq_3 = equal::<3, 3, 3>(); wm_eq_3_s2 = equal::<3, 2, 2>();
     wm_eq_4 = equal::<4, 4, 4>(); wm_eq_4_s2 = equal::<4, 2, 3>(); wm_eq_5 = equal::<5, 5, 5>(); wm_eq_5_s3 = equal::<5, 3, 3>();
